@@ -2,6 +2,7 @@ import RR.Proof.SyncSpecs
 import RR.Proof.SyncWork
 import RR.Proof.Hand
 import RR.Proof.DspFir
+import RR.Proof.DspFftTags
 
 /-!
 # C12 — blocks carry tags forward exactly once, at the corresponding output sample
@@ -10,11 +11,13 @@ In the models tags travel inside the views (window-relative positions, as
 `read_buf` gives them) and inside what is handed to `produce(n, tags)`.
 Proved: the whole plain-`sync` family (one-to-one blocks: same index, exactly
 once, for every chunking), the stream contract `tag.pos < n` for every generated
-`work()`, and the per-call tag handling of Skip and Delay. FirFilter (index /
-decimation), Hilbert, FftFilter(+Float), CmaEqualizer, VectorSource,
-correlator, burst tagger and VecToStream are checked on the real code
-(`!tags` lines: drip-fed vs greedy run must deliver identical tags; model
-comparison for correlator/burst tagger), not as theorems.
+`work()`, the per-call tag handling of Skip, Delay and FirFilter (index /
+decimation), and FftFilter for EVERY schedule of read windows and output space
+(`c12_fft`: the block buffers the tags of an unfinished batch across calls).
+Hilbert, CmaEqualizer, VectorSource, correlator, burst tagger and VecToStream
+are checked on the real code (`!tags` lines: drip-fed vs greedy run must
+deliver identical tags; model comparison for correlator/burst tagger), not as
+theorems.
 -/
 namespace RR.Props.C12
 open RR RR.Blk
@@ -103,7 +106,32 @@ theorem c12_fir {α : Type} (o : Dsp.Ops α) (cd : Dsp.Codec α) (rt : List α) 
       omega
     exact (Nat.div_lt_div_of_lt_of_dvd (Nat.dvd_of_mod_eq_zero hmod) hu)
 
+/-- **FftFilter, every schedule.** The input history `X` carries the tags `T` (absolute
+positions, any number per sample, any order). However the input is cut into read windows and however
+much output space each call finds, at every moment: the tags handed downstream so far (rebased to
+absolute output positions) are exactly — as a multiset, so each exactly once — the input tags on the
+samples emitted so far, at the SAME index; and the tags of the samples consumed but not yet emitted are
+exactly what the block holds in `buf_tags`, relative to the pending batch. Nothing is lost, duplicated
+or moved. -/
+theorem c12_fft {α : Type} (o : Dsp.Ops α) (cd : Dsp.Codec α) (taps : List α) (X : List Nat) (T : List Tag)
+    (hS : 0 < Dsp.calcFftSize taps.length - taps.length) (sched : List (Nat × Nat)) :
+    let r := Dsp.driveT (Dsp.fftBlock o cd taps) X T (Dsp.fftBlock o cd taps).init 0 [] [] sched
+    let emitted := r.2.2.1.length
+    r.2.2.2.Perm (Dsp.rng T 0 emitted) ∧
+    r.1.bufTags.Perm ((Dsp.rng T emitted r.2.1).map (Dsp.sh emitted)) ∧
+    r.2.1 = emitted + r.1.buf.length := by
+  have h := Dsp.fft_tags_drive o cd taps X T hS sched ⟨[], [], List.replicate taps.length o.zero⟩ 0 [] []
+    (Dsp.fft_tags_init taps T _ hS)
+  exact ⟨h.2.2.2, h.2.2.1, h.2.1⟩
+
 /-! Non-vacuity. -/
+example : 0 < Dsp.calcFftSize 3 - 3 := by decide
+example :
+    let r := Dsp.driveT (Dsp.fftBlock Dsp.giOps Dsp.giCodec [(1, 0), (2, 0), (1, 0)]) (List.range 40)
+      [⟨0, 1, 1⟩, ⟨4, 2, 2⟩, ⟨4, 3, 3⟩, ⟨9, 4, 4⟩, ⟨30, 5, 5⟩] (Dsp.fftBlock Dsp.giOps Dsp.giCodec [(1, 0), (2, 0), (1, 0)]).init
+      0 [] [] [(3, 100), (7, 100), (1, 100), (20, 100)]
+    (r.2.1, r.2.2.1.length, r.2.2.2, r.1.bufTags) = (31, 30, [⟨0, 1, 1⟩, ⟨4, 2, 2⟩, ⟨4, 3, 3⟩, ⟨9, 4, 4⟩], [⟨0, 5, 5⟩]) := by
+  decide +kernel
 example : (syncWork nrzi (0 : Nat) ⟨[⟨[1, 0, 1], [⟨0, 7, 1⟩, ⟨2, 8, 2⟩, ⟨2, 9, 3⟩], true⟩], [⟨2, true⟩]⟩).2.produced.map (·.tags)
     = [[⟨0, 7, 1⟩]] := by decide
 
